@@ -55,6 +55,12 @@ class Ctx:
         self.inputs = {}
 
     def emit(self, props, clause, path, st, goal, kind="prove", extra_index=()):
+        if str(self.variant).startswith("reloaded"):
+            # usability of reloaded containers (C04): the operation works and gives the specified content;
+            # the rejection clauses (C10) are not repeated here
+            if clause.startswith("raises:") or "compatible" in clause or "rejects" in clause:
+                return
+            props = ["C04"]
         s = st.fork()
         if callable(goal):
             goal = goal(s)
@@ -279,9 +285,9 @@ def other_variants(K, method):
     return vs
 
 
-def make_other(st, K, variant, selfv, bk=False):
+def make_other(st, K, variant, selfv, bk=False, mode="live"):
     if variant == "same-class":
-        return schema.make_instance(st, K, 2, bk=bk)
+        return schema.make_instance(st, K, 2, bk=bk, mode=mode)
     if variant == "alias":
         return selfv
     if variant == "foreign":
@@ -303,7 +309,7 @@ def run_method(cx, st, args):
 
 
 def ob_zero(P, K, hooks=None, mode="live"):
-    cx = Ctx(P, K, "zero", mode, hooks)
+    cx = Ctx(P, K, "zero", mode if mode == "live" else "reloaded", hooks)
     st = base_state()
     selfv = schema.make_instance(st, K, 1, mode=mode, bk=True)
     pre = st.fork()
@@ -320,6 +326,8 @@ def ob_zero(P, K, hooks=None, mode="live"):
         if isinstance(r.v, VObj):
             cx.emit(["C01"], "ensures:view", p, s, lambda s2: eq_views(s2, K, view_of(s2, r.v, K), specs.zero(K, s2, a)))
             cx.emit(["C04", "C01"], "ensures:quantity", p, s, lambda s2: quantity_same(s2, pre, selfv, r.v))
+            if K in ("SparselyBin", "Categorize"):
+                cx.emit(["C04", "C01"], "ensures:content-type", p, s, lambda s2: content_shape(s2, r.v) == content_shape(pre, selfv))
             cx.emit(["C05"], "ensures:bk", p, s, lambda s2: bk_goal(s2, K, r.v, pre, [selfv]))
     return cx
 
@@ -330,7 +338,7 @@ def ob_add(P, K, hooks=None, mode="live"):
         cx = Ctx(P, K, "__add__", variant if mode == "live" else f"{mode}:{variant}", hooks)
         st = base_state()
         selfv = schema.make_instance(st, K, 1, mode=mode, bk=True)
-        other = make_other(st, K, variant, selfv, bk=True)
+        other = make_other(st, K, variant, selfv, bk=True, mode=mode)
         pre = st.fork()
         a = view_of(pre, selfv, K)
         b = view_of(pre, other, K) if isinstance(other, VObj) else None
@@ -353,6 +361,8 @@ def ob_add(P, K, hooks=None, mode="live"):
             if isinstance(r.v, VObj):
                 cx.emit(["C01"], "ensures:view", p, s, lambda s2: plus_goal(s2, K, a, b, view_of(s2, r.v, K)))
                 cx.emit(["C04", "C01"], "ensures:quantity", p, s, lambda s2: quantity_same(s2, pre, selfv, r.v))
+                if K in ("SparselyBin", "Categorize"):
+                    cx.emit(["C04", "C01"], "ensures:content-type", p, s, lambda s2: content_shape(s2, r.v) == content_shape(pre, selfv))
                 cx.emit(["C05"], "ensures:bk", p, s, lambda s2: bk_goal(s2, K, r.v, pre, [selfv, other]))
         out.append(cx)
     return out
@@ -408,7 +418,7 @@ def ob_iadd(P, K, hooks=None, mode="live"):
         cx = Ctx(P, K, "__iadd__", variant if mode == "live" else f"{mode}:{variant}", hooks)
         st = base_state()
         selfv = schema.make_instance(st, K, 1, mode=mode, bk=True)
-        other = make_other(st, K, variant, selfv, bk=True)
+        other = make_other(st, K, variant, selfv, bk=True, mode=mode)
         pre = st.fork()
         a = view_of(pre, selfv, K)
         b = view_of(pre, other, K) if isinstance(other, VObj) else None
@@ -499,7 +509,7 @@ def sym_factor(st):
 
 
 def ob_mul(P, K, method="__mul__", hooks=None, mode="live"):
-    cx = Ctx(P, K, method, mode, hooks)
+    cx = Ctx(P, K, method, mode if mode == "live" else "reloaded", hooks)
     st = base_state()
     selfv = schema.make_instance(st, K, 1, mode=mode, bk=True)
     f = sym_factor(st)
@@ -527,6 +537,8 @@ def ob_mul(P, K, method="__mul__", hooks=None, mode="live"):
 
             cx.emit(["C08"], "ensures:view", p, s, g)
             cx.emit(["C08", "C04"], "ensures:quantity", p, s, lambda s2: quantity_same(s2, pre, selfv, r.v))
+            if K in ("SparselyBin", "Categorize"):
+                cx.emit(["C08", "C04"], "ensures:content-type", p, s, lambda s2: content_shape(s2, r.v) == content_shape(pre, selfv))
             cx.emit(["C05"], "ensures:bk", p, s, lambda s2: bk_goal(s2, K, r.v, pre, [selfv]))
     return cx
 
